@@ -282,6 +282,9 @@ def main(argv):
             "replay_cmd": f"./check {prop} --replay <this file>"})
         print(f"VIOLATION property={prop} replay={rp}")
         rc = 1
+    if os.environ.get("VERIF_ALL_VIOLATIONS"):        # development aid: list every derived violation (no replay files)
+        for st, d, o in derived_violations:
+            print("DV", st.name, d.get("why"))
     for st, d, o in derived_violations[:3]:
         rp = vlib.write_replay(prop, {
             "property": prop, "kind": "implementation violates spec (derived check)", "stream": st.name,
